@@ -187,6 +187,11 @@ func (w *world) judgeReserve(p *peerSt, cs *connSt, fault string, out hopOutcome
 				w.label("refresh-granted-other-ip")
 			}
 		}
+		if wasMay && sequential && p.rs.ip == t.ip && p.rs.ipCertain && p.rs.mayUntil.After(at) {
+			// generator heuristic: let the clock pass the ORIGINAL expiry of a refreshed reservation and
+			// have other peers ask from the same address while the refreshed one is still live
+			w.refreshProbe, w.refreshProbeN = &refreshProbe{ip: t.ip, origExp: p.rs.mayUntil, newExp: at.Add(w.cfg.TTL)}, 3
+		}
 		w.noteGrant(p, cs, at, true)
 		w.noteConnSet(p)
 		if sequential {
